@@ -50,7 +50,9 @@ PROPS = {
              "sampled by seed, each invalid one paired with a minimally different valid twin, plus the finite attribute-conflict / union / CompactAs / 256-vs-257 cases; "
              "each program is its own compilation target; distinct by definition"),
     "C09": dict(level="model_checking", mc=[MC_DECODER], steps=[trace(1, 3), dict(kind="apalache", module="Ind_Chunk")]),
-    "C10": dict(level="fault_enumeration", mc=[MC_LEDGER], steps=[
+    "C10": dict(level="fault_enumeration", mc=[MC_LEDGER],
+        evidence_extra=dict(exhaustive_subspaces=["every (shape, size 0..4, fault position, fault kind) vector of the ledger machine, each replayed on the real decoder"]),
+        steps=[
         dict(kind="gen_vectors", mc=GEN_LEDGER, out="lvec.ndjson"),
         trace(1, 1, tag="faults", vectors="lvec.ndjson"),
     ], rule="every (container shape x size 0..4 x fault position x fault kind in {input exhausted, malformed element, limit error, panic}) vector "
@@ -60,7 +62,12 @@ PROPS = {
     "C07": dict(level="model_checking", mc=[MC_ENCODER, MC_FORMAT, MC_IOADAPTERS], steps=[trace(1, 4)]),
     "C15": dict(level="model_checking", mc=[MC_APPEND], steps=[trace(1, 6)]),
     "C16": dict(level="model_checking", mc=[MC_FORMAT], steps=[trace(1, 10)]),
-    "C04": dict(level="model_checking", mc=[MC_COMPACT], steps=[
+    "C04": dict(level="model_checking", mc=[MC_COMPACT],
+        evidence_extra=dict(exhaustive_subspaces=[
+            "every u8 and every u16 value through Compact encode / compact_len / using_encoded (real code and TLC)",
+            "every byte string of length 0, 1 and 2 through all five Compact decoders (real code and TLC)",
+            "MC_Compact: the same spaces plus 3-byte strings with a boundary third byte for the 8/16-bit decoders"]),
+        steps=[
         dict(kind="gen_vectors", mc=GEN_COMPACT, out="cvec.ndjson"),
         trace(1, 1, tag="vec", args=["--part", "vec"], vectors="cvec.ndjson"),
         trace(1, 1, tag="exh", args=["--part", "exh"]),
